@@ -28,8 +28,9 @@ from .tape import Tape, minimise
 
 VERIF_DIR = os.path.dirname(os.path.dirname(os.path.abspath(__file__)))
 REPO_DIR = os.environ.get("VERIF_REPO", "/repo")
-EVIDENCE_DIR = os.path.join(VERIF_DIR, "evidence")
-REPLAY_DIR = os.path.join(VERIF_DIR, "replays")
+_OUT = os.environ.get("VERIF_SCRATCH_OUT")   # mutant self-tests must not touch the real evidence
+EVIDENCE_DIR = os.path.join(_OUT or VERIF_DIR, "evidence")
+REPLAY_DIR = os.path.join(_OUT or VERIF_DIR, "replays")
 KNOWN_FINDINGS = os.path.join(VERIF_DIR, "known_findings.json")
 
 
